@@ -129,10 +129,11 @@ package jd
 
 //@ contract JsonNode.diff
 //@   fresh ret0
+//@   noretain p
 //@   requires validNode(self) && validNode(n) && validPath(p) && validStrategy(strategy)
 //@   ensures validDiff(ret0)
 //@   ensures [C05] (len(ret0) == 0) == specEq(self, n, options)
-//@   carries C13 C05 C07 C01 C15
+//@   carries C13 C05 C07 C01 C15 C11
 
 //@ contract JsonNode.Diff
 //@   fresh ret0
@@ -151,6 +152,7 @@ package jd
 
 //@ contract diff
 //@   fresh ret0
+//@   noretain p
 //@   requires validNode(a) && validNode(b) && validPath(p) && validStrategy(strategy) && !specIsContainer(a)
 //@   ensures validDiff(ret0)
 //@   ensures [C05] (len(ret0) == 0) == specEq(a, b, options)
@@ -308,12 +310,14 @@ package jd
 
 //@ contract (jsonList).diffDifferentTypes
 //@   fresh ret0
+//@   noretain path
 //@   requires validNodes(a) && validNode(n) && validPath(path) && validStrategy(strategy)
 //@   ensures validDiff(ret0) && len(ret0) == 1
 //@   carries C05 C07 C01
 
 //@ contract (jsonList).diffMergePatchStrategy
 //@   fresh ret0
+//@   noretain path
 //@   requires validNodes(a) && validNodes(b) && validPath(path)
 //@   ensures validDiff(ret0)
 //@   ensures [C05] (len(ret0) == 0) == specEqList(a, b, options)
@@ -443,6 +447,7 @@ package jd
 
 //@ contract (jsonList).diffRest
 //@   fresh ret0
+//@   noretain path
 //@   requires validNodes(a) && validNodes(b) && validPath(path) && len(path) >= 1 && validNode(previous) && validStrategy(strategy)
 //@   requires len(aHashes) == len(a) && len(bHashes) == len(b)
 //@   requires specIsSubseq(commonSequence, aHashes) && specIsSubseq(commonSequence, bHashes)
@@ -462,10 +467,18 @@ package jd
 //@   loop "range *setKeys" invariant validObject(key)
 //@   carries C13 C08
 
+//@ contract verifStringText
+//@   bounded
+//@   universe a verifStringDocs()
+//@   universe b verifStringPairDocs()
+//@   requires validNode(a) && validNode(b)
+//@   ensures_bounded ret0
+//@   carries C02
+
 //@ contract verifDiffText
 //@   bounded
-//@   universe a verifNodesPlusStrings(TIER)
-//@   universe b verifNodesPlusStrings(TIER)
+//@   universe a verifNodes(TIER)
+//@   universe b verifNodes(TIER)
 //@   requires validNode(a) && validNode(b)
 //@   ensures_bounded ret0
 //@   carries C02
@@ -506,9 +519,9 @@ package jd
 
 //@ contract verifReadPatchContext
 //@   bounded
-//@   universe a verifPointerDocs(0)
-//@   universe b verifPointerDocs(0)
-//@   universe c verifPointerDocs(0)
+//@   universe a verifPointerDocs(-1)
+//@   universe b verifPointerDocs(-1)
+//@   universe c verifPointerDocs(-1)
 //@   requires validNode(a) && validNode(b) && validNode(c)
 //@   ensures_bounded ret0
 //@   carries C10
@@ -552,6 +565,24 @@ package jd
 //@   ensures_bounded ret0
 //@   carries C08
 
+//@ contract verifBagSemantics
+//@   bounded
+//@   universe a verifNestedBags(5)
+//@   universe b verifNestedBags(5)
+//@   universe c verifNestedBags(5)
+//@   universe options [][]Option{{SET}, {MULTISET}}
+//@   ensures_bounded ret0
+//@   carries C08
+
+//@ contract verifBagEquals
+//@   bounded
+//@   universe a verifNestedBagNodes()
+//@   universe b verifNestedBagNodes()
+//@   requires validNode(a) && validNode(b)
+//@   ensures_bounded ret0 == specEq(a, b, verifEqualOptions(options))
+//@   ensures_bounded ret0 == b.Equals(a, options...)
+//@   carries C04
+
 //@ contract verifSetPatchNonArray
 //@   bounded
 //@   universe n verifNodes(0)
@@ -568,6 +599,19 @@ package jd
 //@   ensures_bounded ret0 != 1
 //@   ensures_bounded ret0 != 2 && ret0 != 3
 //@   carries C08
+
+//@ contract verifKeyedDiff
+//@   bounded
+//@   cap 250000 3000000
+//@   universe a verifKeyedDocs(TIER)
+//@   universe b verifKeyedDocs(TIER)
+//@   universe options [][]Option{{SetKeys("a")}, {SET, SetKeys("a")}, {MULTISET, SetKeys("a")}}
+//@   requires validNode(a) && validNode(b) && verifDomain(a, b, options)
+//@   ensures_bounded [C01] verifPatchGives(a, ret0, b, options)
+//@   ensures_bounded [C05] (len(ret0) == 0) == a.Equals(b, options...)
+//@   ensures_bounded [C05] (len(ret0) == 0) == specEq(a, b, options)
+//@   ensures_bounded [C07] verifHunksReal(a, b, options)
+//@   carries C01 C05 C07
 
 //@ contract verifKeyedMembers
 //@   bounded
@@ -641,6 +685,36 @@ package jd
 //@   requires !a.Equals(b, verifEqualOptions(options)...)
 //@   ensures_bounded ret0
 //@   carries C11
+
+//@ contract verifPatchedDiff
+//@   bounded
+//@   universe a verifRandA(TIER)
+//@   universe b verifRandB(TIER)
+//@   universe c verifRandC(TIER)
+//@   zip a b c
+//@   requires validNode(a) && validNode(b) && validNode(c)
+//@   ensures_bounded ret0
+//@   carries C06 C05 C15
+
+//@ contract verifScale
+//@   bounded
+//@   universe a verifScaleA()
+//@   universe b verifScaleB()
+//@   zip a b
+//@   requires validNode(a) && validNode(b)
+//@   ensures_bounded ret0 == ""
+//@   carries C01 C02 C09 C11 C16
+
+//@ contract verifScaleCLI
+//@   bounded
+//@   needs_cli
+//@   universe a verifScaleA()
+//@   universe b verifScaleB()
+//@   zip a b
+//@   universe fi []int{0, 5, 6, 7}
+//@   requires validNode(a) && validNode(b)
+//@   ensures_bounded ret0 == ""
+//@   carries C14
 
 //@ contract verifRandPure
 //@   bounded
